@@ -72,7 +72,7 @@ def pairwise_cover(sets, seed, extra=4):
     return chosen
 
 
-def documents(n_walks, seed, ck, corpus_n=0, max_steps=30, tag="optdocs"):
+def documents(n_walks, seed, ck, corpus_n=0, max_steps=30, tag="optdocs", special_slots=False):
     """(tid, source text, dict) - generated documents without quote characters inside strings
     (C06 quantifier), plus corpus files"""
     out = []
@@ -88,6 +88,19 @@ def documents(n_walks, seed, ck, corpus_n=0, max_steps=30, tag="optdocs"):
         out.append(("walk:%d" % j, text, d))
         if ck is not None:
             ck.nontrivial(h[:-1])
+    if special_slots:
+        # every slot whose value is written verbatim or in a special lexical form (expression, "text"i, {list}, /regex/,
+        # [binding], hex colour): the option set must not reach into it
+        conc = concretise.Concretiser(seed, avoid_quote="\"'")
+        for i, h in enumerate(docs.slots(ck=ck, tag=tag + "_slots")):
+            info = h[-1]["info"]
+            if info["pos"] != "middle" or info["slot"][2] not in ("expr", "istring", "listexpr", "regex", "bind", "hex", "bindpair", "hexpair", "mixedpair"):
+                continue
+            text, _ = concretise.assemble(conc.tokens(concretise.with_root(h, docs.root_type(h))))
+            try:
+                out.append(("slot:%s.%s:%s" % tuple(info["slot"][:3]), text, loads(text)))
+            except Exception:  # noqa: BLE001
+                continue
     if corpus_n:
         p = impl.Parser(expand_includes=True)
         m = impl.MapfileToDict()
